@@ -168,3 +168,82 @@ Proof.
   destruct (Nat.ltb q' p) eqn:L'; [|reflexivity].
   apply Nat.ltb_lt in L'. try rewrite C' in Hc. symmetry in Hc. specialize (Hpq Hc). lia.
 Qed.
+
+(* ---------------------------------------------------------------- further witnesses (dumped by tools/pegdump.py) *)
+(* Model: ('a' X 'q')*[eolterm] 'a' X 'r'; X: 'x' 'y'; *)
+Definition g_eol : grammar := (mkGrammar [mkNode KSeq [1;11] None false [77;111;100;101;108]%N true false None None;
+  mkNode KSeq [2;9;5;10] None false [77;111;100;101;108]%N true false None None;
+  mkNode KStar [3] None true []%N false false None None;
+  mkNode KSeq [4;5;8] None false []%N false false None None;
+  mkNode (KStr [97]%N None) [] None false []%N false false None None;
+  mkNode KSeq [6;7] None false [88]%N true false None None;
+  mkNode (KStr [120]%N None) [] None false []%N false false None None;
+  mkNode (KStr [121]%N None) [] None false []%N false false None None;
+  mkNode (KStr [113]%N None) [] None false []%N false false None None;
+  mkNode (KStr [97]%N None) [] None false []%N false false None None;
+  mkNode (KStr [114]%N None) [] None false []%N false false None None;
+  mkNode KEOF [] None false [69;79;70]%N false false None None] 0 None).
+Definition in_eol0 : list N := [97;32;120;10;121;32;114]%N.  (* 'a x\ny r' *)
+Definition tbl_eol0 : list ((nat * nat) * nat) := (@nil ((nat * nat) * nat)).
+(* memoization=False: P:n0(n1(t9@0+1-,n5(t6@2+1-,t7@4+1-),t10@6+1-),eof@7+0-) *)
+(* memoization=True: E:3 *)
+(* Model: ('k' | CB) 'r'; Comment: CL | CB; CL: /\/\/.*?$/; CB: '#' 'x'; *)
+Definition g_cmt : grammar := (mkGrammar [mkNode KSeq [1;8] None false [77;111;100;101;108]%N true false None None;
+  mkNode KSeq [2;7] None false [77;111;100;101;108]%N true false None None;
+  mkNode KChoice [3;4] None false []%N false false None None;
+  mkNode (KStr [107]%N None) [] None false []%N false false None None;
+  mkNode KSeq [5;6] None false [67;66]%N true false None None;
+  mkNode (KStr [35]%N None) [] None false []%N false false None None;
+  mkNode (KStr [120]%N None) [] None false []%N false false None None;
+  mkNode (KStr [114]%N None) [] None false []%N false false None None;
+  mkNode KEOF [] None false [69;79;70]%N false false None None;
+  mkNode KChoice [10;4] None false [67;111;109;109;101;110;116]%N true false None None;
+  mkNode (KRegex 0) [] None false [67;76]%N true false None None] 0 (Some 9)).
+Definition in_cmt0 : list N := [35;47;47;32;99;10;32;120;32;114]%N.  (* '#// c\n x r' *)
+Definition tbl_cmt0 : list ((nat * nat) * nat) := [((0,1),4)].
+(* memoization=False: P:n0(n1(n4(t5@0+1-,t6@7+1-),t7@9+1-),eof@10+0-) *)
+(* memoization=True: E:0 *)
+(* Model: xs+=X[','] ';' | xs+=X[','] '.'; X: 'x' | /\d+/; *)
+Definition g_ex : grammar := (mkGrammar [mkNode KSeq [1;13] None false [77;111;100;101;108]%N true false None None;
+  mkNode KChoice [2;9] None false [77;111;100;101;108]%N true false None None;
+  mkNode KSeq [3;8] None false []%N false false None None;
+  mkNode KPlus [4] (Some 7) false [95;95;97;115;103;110;95;111;110;101;111;114;109;111;114;101]%N true false None None;
+  mkNode KChoice [5;6] None false [88]%N true false None None;
+  mkNode (KStr [120]%N None) [] None false []%N false false None None;
+  mkNode (KRegex 0) [] None false []%N false false None None;
+  mkNode (KStr [44]%N None) [] None false [115;101;112]%N false false None None;
+  mkNode (KStr [59]%N None) [] None false []%N false false None None;
+  mkNode KSeq [10;12] None false []%N false false None None;
+  mkNode KPlus [4] (Some 11) false [95;95;97;115;103;110;95;111;110;101;111;114;109;111;114;101]%N true false None None;
+  mkNode (KStr [44]%N None) [] None false [115;101;112]%N false false None None;
+  mkNode (KStr [46]%N None) [] None false []%N false false None None;
+  mkNode KEOF [] None false [69;79;70]%N false false None None] 0 None).
+Definition in_ex0 : list N := [120;44;32;49;44;32;120;46]%N.  (* 'x, 1, x.' *)
+Definition tbl_ex0 : list ((nat * nat) * nat) := [((0,3),1)].
+(* memoization=False: P:n0(n1(n10(n4(t5@0+1),t11@1+1,n4(t6@3+1),t11@4+1,n4(t5@6+1)),t12@7+1-),eof@8+0-) *)
+(* memoization=True: P:n0(n1(n10(n4(t5@0+1),t11@1+1,n4(t6@3+1),t11@4+1,n4(t5@6+1)),t12@7+1-),eof@8+0-) *)
+Definition in_ex1 : list N := [120;44;32;49;44;32;120;33]%N.  (* 'x, 1, x!' *)
+Definition tbl_ex1 : list ((nat * nat) * nat) := [((0,3),1)].
+(* memoization=False: E:7 *)
+(* memoization=True: E:7 *)
+
+Lemma refuted_eolterm :
+  ctx_constant g_eol = false /\
+  accepts (run g_eol c_default (orc_of tbl_eol0) false 100 in_eol0) = true /\
+  run g_eol c_default (orc_of tbl_eol0) true 100 in_eol0 = SyntaxErr 3.
+Proof. vm_compute. repeat split. Qed.
+
+Lemma refuted_comment_shared :
+  ctx_constant g_cmt = false /\
+  accepts (run g_cmt c_default (orc_of tbl_cmt0) false 100 in_cmt0) = true /\
+  run g_cmt c_default (orc_of tbl_cmt0) true 100 in_cmt0 = SyntaxErr 0.
+Proof. vm_compute. repeat split. Qed.
+
+(* non-vacuity: a context-constant grammar, an accepted and a rejected input, memoization on *)
+Lemma example_in_class :
+  ctx_constant g_ex = true /\
+  accepts (run g_ex c_default (orc_of tbl_ex0) true 100 in_ex0) = true /\
+  run g_ex c_default (orc_of tbl_ex0) true 100 in_ex0 = run g_ex c_default (orc_of tbl_ex0) false 100 in_ex0 /\
+  run g_ex c_default (orc_of tbl_ex1) false 100 in_ex1 = SyntaxErr 7 /\
+  run g_ex c_default (orc_of tbl_ex1) true 100 in_ex1 = SyntaxErr 7.
+Proof. vm_compute. repeat split. Qed.
